@@ -114,7 +114,7 @@ def require_ok(res, what):
 
 
 def validate_events(module, events, workdir, shards=16, timeout=1800, cfg=None,
-                    env=None, tag="V", heap="2g"):
+                    env=None, tag="V", heap="2g", group=None):
     """Trace validation: feed `events` (list of JSON-able records, each with an
     integer field "id") to the trace spec `module`, sharded over JVMs.
 
@@ -125,7 +125,21 @@ def validate_events(module, events, workdir, shards=16, timeout=1800, cfg=None,
     if not events:
         return {}, {"states": 0, "generated": 0, "wall": 0.0, "jvms": 0}
     shards = max(1, min(shards, len(events)))
-    chunks = [events[i::shards] for i in range(shards)]
+    if group is None:
+        chunks = [events[i::shards] for i in range(shards)]
+    else:
+        # events with the same group key (a trace / a ray) stay together, in order
+        order, groups = [], {}
+        for e in events:
+            k = e[group]
+            if k not in groups:
+                groups[k] = []
+                order.append(k)
+            groups[k].append(e)
+        chunks = [[] for _ in range(shards)]
+        for i, k in enumerate(order):
+            chunks[i % shards] += groups[k]
+        chunks = [c for c in chunks if c]
     files = []
     for i, ch in enumerate(chunks):
         f = os.path.join(workdir, "trace_%s_%d.json" % (module, i))
